@@ -51,7 +51,7 @@ static PPath gen_base(Rng& r, const Frame& f, int fam, int maxpts) {
       if (k == 0) {}                                           // empty
       else if (k == 1) p.push_back(rnd_pt(r, f));              // one point
       else if (k == 2) { p.push_back(rnd_pt(r, f)); p.push_back(rnd_pt(r, f)); }
-      else if (k == 3) { PPt a = rnd_pt(r, f); n = (int)r.range(2, 5); for (int i = 0; i < n; ++i) p.push_back(a); }       // all the same point
+      else if (k == 3) { PPt a = rnd_pt(r, f); n = (int)r.range(2, 9); for (int i = 0; i < n; ++i) p.push_back(a); }       // all the same point
       else if (k == 4) { PPt a = rnd_pt(r, f); int64_t dx = r.range(-3, 3), dy = r.range(-3, 3); n = (int)r.range(3, 7); for (int i = 0; i < n; ++i) { int64_t t = r.range(-4, 4); p.push_back({a.x + dx * t, a.y + dy * t, 0}); } } // collinear
       else { PPt a = rnd_pt(r, f); n = (int)r.range(3, 6); for (int i = 0; i < n; ++i) p.push_back({a.x + r.range(-8, 8) * (i & 1), a.y, 0}); } // flat horizontal
       break; }
@@ -59,6 +59,11 @@ static PPath gen_base(Rng& r, const Frame& f, int fam, int maxpts) {
       PPt a = rnd_pt(r, f), b = rnd_pt(r, f);
       p.push_back(a); p.push_back(b); p.push_back({b.x + r.range(-2, 2), b.y + r.range(-2, 2), 0});
       if (r.chance(0.5)) p.push_back({a.x + r.range(-2, 2), a.y + r.range(-2, 2), 0});
+      break; }
+    case 7: {                                                                                                     // star polygon {n/k}: edges pass right through the middle
+      n = (int)r.range(5, std::max(5, std::min(maxpts, 13))); int k = (int)r.range(2, std::max(2, n / 2));
+      double rr = (double)f.ext, ph = r.unit() * 6.28318530717958647692;
+      for (int i = 0; i < n; ++i) { double a = ph + 6.28318530717958647692 * (double)((i * k) % n) / n; PPt q; q.x = f.cx + (int64_t)std::llround(rr * std::cos(a)); q.y = f.cy + (int64_t)std::llround(rr * std::sin(a)); p.push_back(q); }
       break; }
     default: {                                                                                                    // random walk (self-intersecting)
       n = (int)r.range(3, std::max(3, maxpts)); PPt a = rnd_pt(r, f); int64_t st = std::max<int64_t>(1, f.ext / 4);
@@ -98,7 +103,7 @@ PPaths gen_paths(Rng& r, int64_t mag, int maxpaths, int maxpts, bool z, const Fr
       else if (k == 1) { int64_t dx = r.range(-2, 2), dy = r.range(-2, 2); for (PPt& q : p) { q.x = std::max(-mag, std::min(mag, q.x + dx)); q.y = std::max(-mag, std::min(mag, q.y + dy)); } }
       else if (k == 2 && !p.empty()) std::rotate(p.begin(), p.begin() + r.below(p.size()), p.end());
     } else {
-      static const int fams[] = {0, 0, 0, 1, 1, 2, 2, 3, 3, 4, 4, 5, 6, 6};
+      static const int fams[] = {0, 0, 0, 1, 1, 2, 2, 3, 3, 4, 4, 5, 6, 6, 7};
       int fam = fams[r.below(sizeof(fams) / sizeof(int))];
       Frame g = f;
       if (r.chance(0.3)) { g.ext = std::max<int64_t>(1, f.ext / 2); g.cx = f.cx + snap(r.range(-f.ext / 2, f.ext / 2), f.grid); g.cy = f.cy + snap(r.range(-f.ext / 2, f.ext / 2), f.grid); }
@@ -264,17 +269,32 @@ static int append_entry(Rng& r, Plan& pl, int kind, int task, int slot0, const s
     case 7: {  // rect clip: free functions and objects
       MagClass mc = pick_mag(r, cfg, false); Frame f = make_frame(r, mc.mag);
       PPt a = rnd_pt(r, f), b = rnd_pt(r, f);
+      if (r.chance(0.4)) { int64_t h = std::max<int64_t>(1, f.ext / r.range(3, 8)); a = {f.cx - h, f.cy - h, 0}; b = {f.cx + h, f.cy + h, 0}; }   // small rectangle in the middle: paths cross it many times
       int64_t l = std::min(a.x, b.x), rr = std::max(a.x, b.x), t = std::min(a.y, b.y), bb = std::max(a.y, b.y);
       if (r.chance(0.1)) rr = l; if (r.chance(0.05)) std::swap(t, bb);
       int w = (int)r.below(4);
-      if (w == 0) { Op o = mkop("rectclip64", task); o.i = {l, t, rr, bb, (int64_t)r.below(2), (int64_t)r.below(2)}; setP(o, 0, gen_paths(r, mc.mag, maxpaths, maxpts, z, &f)); push(o); return 0; }
+      // paths that cross the rectangle many times and wrap round its corners outside: dense star polygons centred on it
+      auto crossing_paths = [&]() {
+        PPaths pp = gen_paths(r, mc.mag, maxpaths, maxpts, z, &f);
+        if (r.chance(0.35) && rr > l && bb > t) {
+          int n = 5 + 2 * (int)r.below(5), k = n / 2 - (int)r.below(2); if (k < 2) k = 2;
+          double hw = (double)(rr - l) / 2, hh = (double)(bb - t) / 2, rad = std::max(hw, hh) * (1.5 + r.unit() * 6) + 2, ph = r.unit() * 6.28318530717958647692;
+          int64_t cx = l + (rr - l) / 2, cy = t + (bb - t) / 2; PPath s;
+          for (int i = 0; i < n; ++i) { double a = ph + 6.28318530717958647692 * (double)((i * k) % n) / n; PPt q; q.x = cx + (int64_t)std::llround(rad * std::cos(a)); q.y = cy + (int64_t)std::llround(rad * std::sin(a));
+            q.x = std::max(-mc.mag, std::min(mc.mag, q.x)); q.y = std::max(-mc.mag, std::min(mc.mag, q.y)); s.push_back(q); }
+          if (r.chance(0.3)) std::reverse(s.begin(), s.end());
+          add_z(r, s, z); pp.push_back(s);
+        }
+        return pp;
+      };
+      if (w == 0) { Op o = mkop("rectclip64", task); o.i = {l, t, rr, bb, (int64_t)r.below(2), (int64_t)r.below(2)}; setP(o, 0, crossing_paths()); push(o); return 0; }
       if (w == 1) {
         int prec = pick_prec(r, true); int pc = prec < -8 ? -8 : (prec > 8 ? 8 : prec); double sc = std::pow(10.0, pc);
         Op o = mkop("rectclipD", task); o.d = {l / sc, t / sc, rr / sc, bb / sc}; o.i = {(int64_t)r.below(2), (int64_t)r.below(2), prec};
         setD(o, 0, to_d(gen_paths(r, mc.mag, maxpaths, maxpts, z, &f), sc, r, true)); push(o); return 0; }
       Op n = mkop(w == 2 ? "new_rc" : "new_rcl", task); n.o = slot0; n.i = {l, t, rr, bb}; push(n);
       int ne = (int)r.range(1, 3);
-      for (int i = 0; i < ne; ++i) { Op o = mkop("r_exec", task); o.o = slot0; setP(o, 0, gen_paths(r, mc.mag, maxpaths, maxpts, z, &f)); push(o); }
+      for (int i = 0; i < ne; ++i) { Op o = mkop("r_exec", task); o.o = slot0; setP(o, 0, crossing_paths()); push(o); }
       if (r.chance(0.7)) { Op d = mkop("del", task); d.o = slot0; push(d); }
       return 1; }
     case 8: {  // Minkowski
@@ -297,7 +317,8 @@ static int append_entry(Rng& r, Plan& pl, int kind, int task, int slot0, const s
       int64_t dx = r.range(-mc.mag / 2, mc.mag / 2), dy = r.range(-mc.mag / 2, mc.mag / 2);
       if (sub == 7) for (PPath& p : pp) for (PPt& q : p) { q.x /= 2; q.y /= 2; }
       int64_t steps = r.chance(0.5) ? 0 : r.range(0, 400);
-      double rx = r.chance(0.1) ? 0 : (r.chance(0.5) ? r.unit() * 100 : std::min<double>((double)mc.mag / 2, 4e9) * r.unit());
+      static const double tiny[] = {0, -1, 0.01, 0.05, 0.09, 0.11, 0.3, 0.5, 1, 2.5};
+      double rx = r.chance(0.3) ? tiny[r.below(10)] : (r.chance(0.5) ? r.unit() * 100 : std::min<double>((double)mc.mag / 2, 4e9) * r.unit());
       double ry = r.chance(0.3) ? 0 : rx * r.unit() * 2;
       if (sub == 10) { eps = rx; }
       o.i = {sub, (int64_t)r.below(2), dx, dy, steps}; o.d = {eps, ry}; setP(o, 0, pp); push(o); return 0; }
@@ -307,7 +328,8 @@ static int append_entry(Rng& r, Plan& pl, int kind, int task, int slot0, const s
       Op o = mkop("utilsD", task);
       PPaths ip = gen_paths(r, mc.mag, std::max(2, maxpaths), maxpts, z, nullptr);
       double eps = r.chance(0.2) ? 0 : (r.chance(0.5) ? r.unit() * 4 : (double)extent_of(ip) * r.unit()) / sc;
-      double rx = r.chance(0.1) ? 0 : (r.chance(0.5) ? r.unit() * 100 : std::min<double>((double)mc.mag / 2, 4e9) * r.unit());
+      static const double tiny[] = {0, -1, 0.01, 0.05, 0.09, 0.11, 0.3, 0.5, 1, 2.5};
+      double rx = r.chance(0.3) ? tiny[r.below(10)] : (r.chance(0.5) ? r.unit() * 100 : std::min<double>((double)mc.mag / 2, 4e9) * r.unit());
       if (sub == 10) eps = rx;
       o.i = {sub, (int64_t)r.below(2), r.chance(0.5) ? 0 : r.range(0, 400), 0, prec}; o.d = {eps, r.unit() * 50, r.unit() * 50, rx * r.unit()}; setD(o, 0, to_d(ip, sc, r, true)); push(o); return 0; }
     case 11: {  // C export: boolean
@@ -482,7 +504,9 @@ Plan gen_c12(uint64_t seed, uint64_t run, const std::string& cfg) {
       int c = (int)g.below(nclip);
       Op o;
       switch (kind) {
-        case A_ADD_S: case A_ADD_O: case A_ADD_C: o = mkop("c_add"); o.o = c; o.i = {(int64_t)(kind - A_ADD_S)}; if (useD) setD(o, 0, to_d(P(), std::pow(10.0, std::max(0, prec)), g, true)); else setP(o, 0, P()); break;
+        case A_ADD_S: case A_ADD_O: case A_ADD_C: o = mkop("c_add"); o.o = c; o.i = {(int64_t)(kind - A_ADD_S)};
+          if (useD && g.chance(0.08)) { PPathsD big; big.push_back(PPathD{{1e17, 0, 0}, {1e17, 5, 0}, {-3, 7, 0}}); setD(o, 0, big); }   // out of range: rejected, error flag set
+          else if (useD) setD(o, 0, to_d(P(), std::pow(10.0, std::max(0, prec)), g, true)); else setP(o, 0, P()); break;
         case A_REUSE: if (ncont == 0) { o = mkop("c_add"); o.o = c; o.i = {2}; if (useD) setD(o, 0, to_d(P(), std::pow(10.0, std::max(0, prec)), g, true)); else setP(o, 0, P()); }
                       else if (g.chance(0.3)) { o = mkop("k_add"); o.o = 4 + (int)g.below(ncont); o.i = {(int64_t)g.below(2), 0}; setP(o, 0, P()); }
                       else { o = mkop("c_reuse"); o.o = c; o.o2 = 4 + (int)g.below(ncont); } break;
